@@ -296,7 +296,7 @@ func (e *Explorer) runPath(sol *smt.Solver, prefix []Decision) (res *PathResult)
 			res.Sample = m.samplePath()
 		}
 	}()
-	main := &Thread{ID: 0, Name: "harness", HeldMu: map[Ptr]int{}}
+	main := &Thread{ID: 0, Name: "harness", HeldMu: map[Ptr]int{}, NID: 0}
 	m.threads = []*Thread{main}
 	m.tick(main)
 	m.cur = main
